@@ -35,6 +35,15 @@ var FieldTypes = [NFields]influxql.DataType{influxql.Float, influxql.Integer, in
 // and contains an equals sign (which a measurement name carries unescaped).
 var MeasNames = [NMeas]string{"m0", "m,1 x=y", "m2"}
 
+// SetEqualsName switches the third measurement name between the plain "m2" and a name whose text before its
+// (unescaped) equals sign is a tag key of the domain.
+func SetEqualsName(on bool) {
+	MeasNames[2] = "m2"
+	if on {
+		MeasNames[2] = "host=b,x y"
+	}
+}
+
 func MeasName(m int) string  { return MeasNames[m%NMeas] }
 func FieldName(f int) string { return fmt.Sprintf("f%d", f) }
 
